@@ -90,6 +90,10 @@ func (t *tr) item(it gen.ListItem) string {
 		}
 		return foldSet(it.S[0], it.Caseless)
 	case "range":
+		if len(it.From) != 1 || len(it.To) != 1 {
+			t.fail("range with multi-byte bounds")
+			return ""
+		}
 		return setByte(it.From[0]) + "-" + setByte(it.To[0])
 	case "class":
 		if it.Class == "any" {
